@@ -156,6 +156,8 @@ impl Encoder<Message> for LSCodec {
 pub async fn responder(stdout: tokio::io::Stdout, mut rx: Receiver<Message>) {
     let mut framed_write = FramedWrite::new(stdout, LSCodec);
     while let Some(response) = rx.recv().await {
+        #[cfg(feature = "verif")]
+        crate::verif::delay("RESPONDER").await;
         if let Err(err) = framed_write.send(response).await {
             log::error!("Sending responses failed: {:#?}", err);
             panic!("Sending responses failed: {:#?}", err);
